@@ -415,7 +415,11 @@ def gen_family(rng, force=(), forbid=(), n_masters=None, max_glyphs=14):
                 d["kwargs"] = {"backend": "pathops" if spec["quad"] and rng.random() < 0.9
                                else rng.choice(["booleanOperations", "pathops"])}
             elif nm == "cubicToQuadratic":
-                d["kwargs"] = {"rememberCurveType": rng.random() < 0.5, "reverseDirection": False}
+                # (rememberCurveType is deliberately left at its default: with True the
+                # filter's documented purpose is to make later conversions depend on
+                # state remembered in place, which is outside C08)
+                d["kwargs"] = {"reverseDirection": False}
+                rng.random()
             x = rng.random()
             if x < 0.3:
                 sub = list(names)
